@@ -232,9 +232,9 @@ func ledgerMetaStaging(c *q.Ctx) {
 // block that carries an already-known transaction re-maps the row to itself only if it is in the trunk - a side-branch
 // block that stole the row would make the snapshot walk date the write at the wrong height.
 func confirmedRowRemap(c *q.Ctx, cb *ssa.Function) {
-		keepTx := func(g q.Cond) bool {
-			return strings.Contains(g.Canon, "InTrunk") || (strings.Contains(g.Canon, ".Height") && strings.Contains(g.Canon, " < "))
-		}
-		c.Effect(cb, q.Eff{Spec: "Batch.Put", Arg: 0, Glob: "append(\"C\",p1.Transactions[].Txid)", Req: []q.Cond{{Canon: "p1.InTrunk", Sense: true}, {Canon: "ledger.(*Ledger).parallelCheckTx(*)#0[p1.Transactions[].Txid]", Sense: true}}, Exact: true, Keep: keepTx, Why: "a trunk block that carries an already-known transaction re-maps it to itself, whatever the old block's flag says", Rule: "K5"})
-		c.Effect(cb, q.Eff{Spec: "Batch.Put", Arg: 0, Glob: "append(\"C\",p1.Transactions[].Txid)", Req: []q.Cond{{Canon: "ledger.(*Ledger).parallelCheckTx(*)#0[p1.Transactions[].Txid]", Sense: false}}, Why: "a new transaction is recorded", Rule: "K6"})
+	keepTx := func(g q.Cond) bool {
+		return strings.Contains(g.Canon, "InTrunk") || (strings.Contains(g.Canon, ".Height") && strings.Contains(g.Canon, " < "))
+	}
+	c.Effect(cb, q.Eff{Spec: "Batch.Put", Arg: 0, Glob: "append(\"C\",p1.Transactions[].Txid)", Req: []q.Cond{{Canon: "p1.InTrunk", Sense: true}, {Canon: "ledger.(*Ledger).parallelCheckTx(*)#0[p1.Transactions[].Txid]", Sense: true}}, Exact: true, Keep: keepTx, Why: "a trunk block that carries an already-known transaction re-maps it to itself, whatever the old block's flag says", Rule: "K5"})
+	c.Effect(cb, q.Eff{Spec: "Batch.Put", Arg: 0, Glob: "append(\"C\",p1.Transactions[].Txid)", Req: []q.Cond{{Canon: "ledger.(*Ledger).parallelCheckTx(*)#0[p1.Transactions[].Txid]", Sense: false}}, Why: "a new transaction is recorded", Rule: "K6"})
 }
